@@ -63,6 +63,9 @@ pub struct DirOpts {
     pub tombstones: bool,
     pub proofs: bool, // print full proofs (structure comparison) in addition to verification results
     pub hot_user: bool, // one label updated in every epoch (versions 1,2,3,…)
+    pub audit_adv: bool, // adversarial audit proofs for the latest transition after each effective publish
+    pub lookup_adv: bool,
+    pub history_adv: bool,
 }
 
 /// one directory history as an ops segment
@@ -88,6 +91,7 @@ pub fn dir_case(rng: &mut Rng, cfg: &str, o: &DirOpts, out: &mut Vec<String>) {
     // current values as the generator believes them (for re-submissions)
     let mut current: Vec<Option<Vec<u8>>> = vec![None; pool.len()];
     let mut last_update: Vec<usize> = vec![0; pool.len()];
+    let mut nver: Vec<u64> = vec![0; pool.len()];
     let mut epoch = 0usize;
     let mut published: Vec<usize> = vec![];
     out.push("spec.root".into());
@@ -131,6 +135,7 @@ pub fn dir_case(rng: &mut Rng, cfg: &str, o: &DirOpts, out: &mut Vec<String>) {
             for (i, v) in &batch {
                 if current[*i].as_ref() != Some(v) {
                     last_update[*i] = epoch;
+                    nver[*i] += 1;
                 }
                 current[*i] = Some(v.clone());
                 if !published.contains(i) {
@@ -180,6 +185,118 @@ pub fn dir_case(rng: &mut Rng, cfg: &str, o: &DirOpts, out: &mut Vec<String>) {
                 }
             }
         }
+        if o.lookup_adv && (step % 2 == 0 || step + 1 == o.epochs) {
+            for (i, u) in pool.iter().enumerate() {
+                let hu = hex_or_dash(u);
+                out.push(format!("adv.lookup {hu}"));
+                if nver[i] == 0 {
+                    continue;
+                }
+                let other = hex_or_dash(&pool[(i + 1) % pool.len()]);
+                for v in 1..=nver[i] {
+                    if v < nver[i] || v == 1 {
+                        out.push(format!("adv.lookup {hu} version:{v}"));
+                    }
+                    if v < nver[i] {
+                        for k in 0..4 {
+                            out.push(format!("adv.lookup {hu} version:{v} fresh.anchor:{k}"));
+                        }
+                        out.push(format!("adv.lookup {hu} version:{v} swap.fresh:{other}"));
+                        out.push(format!("adv.lookup {hu} version:{v} marker.rootproof fresh.anchor:0"));
+                    }
+                }
+                out.push(format!("adv.lookup {hu} fresh.anchor:0"));
+                out.push(format!("adv.lookup {hu} fresh.anchor:1"));
+                out.push(format!("adv.lookup {hu} value:ff00"));
+                out.push(format!("adv.lookup {hu} value:-"));
+                out.push(format!("adv.lookup {hu} epoch:{}", last_update[i] + 1));
+                out.push(format!("adv.lookup {hu} epoch:{}", last_update[i].saturating_sub(1)));
+                out.push(format!("adv.lookup {hu} vfield:{}", nver[i] + 1));
+                out.push(format!("adv.lookup {hu} vfield:{}", nver[i].saturating_sub(1)));
+                out.push(format!("adv.lookup {hu} vfield:{}", epoch + 5));
+                out.push(format!("adv.lookup {hu} nonce.zero"));
+                out.push(format!("adv.lookup {hu} marker.rootproof"));
+                out.push(format!("adv.lookup {hu} exist.rootproof"));
+                out.push(format!("adv.lookup {hu} swap.exist:{other}"));
+                out.push(format!("adv.lookup {hu} swap.marker:{other}"));
+                out.push(format!("adv.lookup {hu} swap.fresh:{other}"));
+            }
+        }
+        if o.history_adv && (step % 3 == 2 || step + 1 == o.epochs) {
+            for (i, u) in pool.iter().enumerate() {
+                let hu = hex_or_dash(u);
+                for mode in ["default", "allow"] {
+                    out.push(format!("adv.invent {hu} {} complete {mode}", epoch.max(1)));
+                    out.push(format!("adv.invent {hu} 1 recent:1 {mode}"));
+                }
+                if nver[i] == 0 {
+                    out.push(format!("adv.history {hu} complete default"));
+                    continue;
+                }
+                let n = nver[i] as usize;
+                for prm in ["complete".to_string(), "recent:2".to_string(), format!("recent:{}", n)] {
+                    for mode in ["default", "allow"] {
+                        let base = format!("adv.history {hu} {prm} {mode}");
+                        out.push(base.clone());
+                        out.push(format!("{base} drop.newest:1"));
+                        for k in 0..3 {
+                            out.push(format!("{base} drop.newest:1 future.anchor:0:{k}"));
+                        }
+                        out.push(format!("{base} drop.newest:2 future.anchor:0:0 future.anchor:1:0"));
+                        out.push(format!("{base} drop.oldest:1"));
+                        out.push(format!("{base} gap:1"));
+                        out.push(format!("{base} gap:0"));
+                        out.push(format!("{base} dup:0"));
+                        out.push(format!("{base} swapupd:0:1"));
+                        out.push(format!("{base} value:0:ff"));
+                        out.push(format!("{base} value:{}:ee", n.saturating_sub(1)));
+                        out.push(format!("{base} epoch:0:{}", epoch + 1));
+                        out.push(format!("{base} epoch:0:{}", last_update[i].saturating_sub(1)));
+                        out.push(format!("{base} epoch:{}:{}", n.saturating_sub(1), epoch));
+                        out.push(format!("{base} tomb:0"));
+                        out.push(format!("{base} tomb:{}", n.saturating_sub(1)));
+                        out.push(format!("{base} tomb:{} epoch:{}:{}", n.saturating_sub(1), n.saturating_sub(1), epoch.max(2) - 1));
+                        out.push(format!("{base} tomb:0 epoch:0:{}", epoch + 1));
+                        out.push(format!("{base} noprev:0"));
+                        out.push(format!("{base} past.drop:0"));
+                        out.push(format!("{base} future.drop:0"));
+                        out.push(format!("{base} past.rootproof:0"));
+                        out.push(format!("{base} tomb:0 exist.rootproof:0"));
+                        out.push(format!("{base} exist.rootproof:0"));
+                    }
+                }
+            }
+        }
+        if o.audit_adv && !dup && changed && epoch >= 1 {
+            let e = epoch - 1;
+            let r32 = |rng: &mut Rng| hex::encode(rng.bytes(32));
+            out.push(format!("adv.audit {e}"));
+            out.push(format!("adv.audit {e} end:rebuilt"));
+            out.push(format!("adv.audit {e} epoch:1"));
+            out.push(format!("adv.audit {e} epoch:1 end:rebuilt"));
+            for j in 0..3 {
+                let v = r32(rng);
+                out.push(format!("adv.audit {e} ins.ext:{j}:{v} end:rebuilt"));
+                out.push(format!("adv.audit {e} ins.ext:{j}:{v}"));
+                out.push(format!("adv.audit {e} unch.drop:{j} end:rebuilt"));
+                out.push(format!("adv.audit {e} unch.drop:{j}"));
+                out.push(format!("adv.audit {e} ins.drop:{j} end:rebuilt"));
+                out.push(format!("adv.audit {e} ins.drop:{j}"));
+                out.push(format!("adv.audit {e} unch.dup:{j} end:rebuilt"));
+                out.push(format!("adv.audit {e} ins.dup:{j} end:rebuilt"));
+                out.push(format!("adv.audit {e} unch.toins:{j} end:rebuilt"));
+                out.push(format!("adv.audit {e} ins.tounch:{j} end:rebuilt"));
+                out.push(format!("adv.audit {e} ins.copylabel:0:{j} end:rebuilt"));
+                out.push(format!("adv.audit {e} ins.copylabel:{j}:{} end:rebuilt", (j + 1) % 3));
+                for n in [0u32, 1, 2, 7, 8] {
+                    out.push(format!("adv.audit {e} ins.addprefix:{j}:{n}:{} end:rebuilt", r32(rng)));
+                }
+                out.push(format!("adv.audit {e} unch.relabel:{j}:{} end:rebuilt", show_label(&NodeLabel::root())));
+                out.push(format!("adv.audit {e} ins.ext:{j}:{} ins.ext:{}:{} end:rebuilt", r32(rng), (j + 1) % 3, r32(rng)));
+            }
+            out.push(format!("adv.audit {e} ins.add:{}:{} end:rebuilt", show_label(&label_of_bits(&vec![true; 256])), r32(rng)));
+            out.push(format!("adv.audit {e} ins.add:{}:{}", show_label(&label_of_bits(&vec![true; 256])), r32(rng)));
+        }
         if o.tombstones && rng.chance(1, 3) && !published.is_empty() {
             let i = *rng.pick(&published);
             // the property speaks of cut-offs BEFORE the label's latest update
@@ -216,31 +333,49 @@ pub fn generate(stream: &str, tier: &str, seed: u64) -> Vec<String> {
         "l1.fault" => gen_fault(&mut rng, thorough, &mut out),
         "l1.dir.c01" => {
             for i in 0..ncases {
-                let o = DirOpts { epochs: epochs + (i % 3) * 4, users, lookups: false, histories: false, audits: false, dumps: true, tombstones: false, proofs: false, hot_user: i % 2 == 0 };
+                let o = DirOpts { epochs: epochs + (i % 3) * 4, users, lookups: false, histories: false, audits: false, dumps: true, tombstones: false, proofs: false, hot_user: i % 2 == 0, audit_adv: false, lookup_adv: false, history_adv: false };
                 dir_case(&mut rng, if i % 2 == 0 { "wv1" } else { "exp" }, &o, &mut out);
             }
         }
         "l1.dir.c02" => {
             for i in 0..ncases {
-                let o = DirOpts { epochs: if i == 0 { epochs.max(18) } else { epochs }, users, lookups: true, histories: false, audits: false, dumps: false, tombstones: false, proofs: true, hot_user: i < 2 };
+                let o = DirOpts { epochs: if i == 0 { epochs.max(18) } else { epochs }, users, lookups: true, histories: false, audits: false, dumps: false, tombstones: false, proofs: true, hot_user: i < 2, audit_adv: false, lookup_adv: false, history_adv: false };
                 dir_case(&mut rng, if i % 2 == 0 { "wv1" } else { "exp" }, &o, &mut out);
             }
         }
         "l1.dir.c03" => {
             for i in 0..ncases {
-                let o = DirOpts { epochs: if i == 0 { epochs.max(18) } else { epochs }, users: users.min(5), lookups: false, histories: true, audits: false, dumps: false, tombstones: false, proofs: true, hot_user: i < 2 };
+                let o = DirOpts { epochs: if i == 0 { epochs.max(18) } else { epochs }, users: users.min(5), lookups: false, histories: true, audits: false, dumps: false, tombstones: false, proofs: true, hot_user: i < 2, audit_adv: false, lookup_adv: false, history_adv: false };
                 dir_case(&mut rng, if i % 2 == 0 { "exp" } else { "wv1" }, &o, &mut out);
             }
         }
         "l1.dir.c04" => {
             for i in 0..ncases {
-                let o = DirOpts { epochs: epochs.min(12), users, lookups: false, histories: false, audits: true, dumps: false, tombstones: false, proofs: true, hot_user: i % 2 == 1 };
+                let o = DirOpts { epochs: epochs.min(12), users, lookups: false, histories: false, audits: true, dumps: false, tombstones: false, proofs: true, hot_user: i % 2 == 1, audit_adv: false, lookup_adv: false, history_adv: false };
+                dir_case(&mut rng, if i % 2 == 0 { "wv1" } else { "exp" }, &o, &mut out);
+            }
+        }
+        "l1.dir.c06" => {
+            for i in 0..ncases {
+                let o = DirOpts { epochs: if i == 0 { epochs.max(12) } else { epochs }, users: users.min(5), lookups: false, histories: false, audits: false, dumps: false, tombstones: false, proofs: false, hot_user: i < 2, audit_adv: false, lookup_adv: true, history_adv: false };
+                dir_case(&mut rng, if i % 2 == 0 { "wv1" } else { "exp" }, &o, &mut out);
+            }
+        }
+        "l1.dir.c07" => {
+            for i in 0..ncases {
+                let o = DirOpts { epochs: if i == 0 { epochs.max(12) } else { epochs }, users: users.min(4), lookups: false, histories: false, audits: false, dumps: false, tombstones: false, proofs: false, hot_user: i < 2, audit_adv: false, lookup_adv: false, history_adv: true };
+                dir_case(&mut rng, if i % 2 == 0 { "exp" } else { "wv1" }, &o, &mut out);
+            }
+        }
+        "l1.dir.c09" => {
+            for i in 0..ncases {
+                let o = DirOpts { epochs: epochs.min(10), users, lookups: false, histories: false, audits: false, dumps: false, tombstones: false, proofs: false, hot_user: i % 2 == 1, audit_adv: true, lookup_adv: false, history_adv: false };
                 dir_case(&mut rng, if i % 2 == 0 { "wv1" } else { "exp" }, &o, &mut out);
             }
         }
         "l1.dir.c20" => {
             for i in 0..ncases {
-                let o = DirOpts { epochs, users: users.min(5), lookups: false, histories: false, audits: false, dumps: false, tombstones: true, proofs: false, hot_user: i % 2 == 0 };
+                let o = DirOpts { epochs, users: users.min(5), lookups: false, histories: false, audits: false, dumps: false, tombstones: true, proofs: false, hot_user: i % 2 == 0, audit_adv: false, lookup_adv: false, history_adv: false };
                 dir_case(&mut rng, if i % 2 == 0 { "wv1" } else { "exp" }, &o, &mut out);
             }
         }
